@@ -1,6 +1,6 @@
 """C12 - Prolog text cannot become Python code; loaded code sees only the engine API."""
 from .. import framework as fw
-from . import compilerp, templates, lexical, enginep
+from . import control, compilerp, templates, lexical, enginep
 from .common import A
 
 LEVEL = 'proof'
@@ -14,6 +14,8 @@ def run(rep):
     # debug comments share the output file with the code (yldpc -d): they must stay comments
     compilerp.debug_noninterference_obligations(rep)
     enginep.engine_deductive(rep, ['engine.YP.query'], heap_lemmas=False)
+    # a source goal never becomes the compiler's internal $CUTIF marker, whose argument is pasted as a label (visitTermpredicate)
+    control.parse_deductive(rep)
     q = rep.tier == 'quick'
     fw.standin(rep, 's_c12.py', ['run', rep.seed, 250 if q else 4000],
                'hostile atoms in every syntactic position: AST whitelist of the output, names, call targets, string constants; hostile run-time queries',
